@@ -52,7 +52,19 @@ SAFE_METHODS = {(str, "find"), (str, "startswith"), (str, "endswith"), (str, "st
                 (list, "copy"), (dict, "get"), (dict, "keys"), (dict, "values"), (dict, "items"), (tuple, "index"),
                 (tuple, "count"), (list, "pop"), (list, "extend"), (str, "join"), (str, "format"), (str, "splitlines"), (str, "isnumeric"),
                 (list, "insert"), (list, "remove"), (dict, "pop"), (dict, "update"), (set, "add"), (str, "rstrip"), (str, "lstrip"),
-                (str, "rfind"), (str, "count"), (str, "index"), (list, "reverse"), (list, "sort")}
+                (str, "rfind"), (str, "count"), (str, "index"), (list, "reverse"), (list, "sort"), (set, "remove"), (set, "discard"), (set, "union"),
+                (set, "intersection"), (set, "difference"), (set, "update"), (set, "copy"), (dict, "setdefault"), (dict, "copy"), (list, "clear")}
+
+
+def _own_walk(fn):
+    """nodes of a function body without nested function / lambda / class bodies"""
+    work = list(fn.body)
+    while work:
+        n = work.pop()
+        yield n
+        for c in ast.iter_child_nodes(n):
+            if not isinstance(c, (ast.FunctionDef, ast.AsyncFunctionDef, ast.Lambda, ast.ClassDef)):
+                work.append(c)
 
 
 class Evaluator:
@@ -84,11 +96,16 @@ class Evaluator:
             if n not in env:
                 raise Unsupported(f"missing argument {n}")
         self.steps = 0
+        is_gen = any(isinstance(n, (ast.Yield, ast.YieldFrom)) for n in _own_walk(self.func))
+        if is_gen:
+            # a generator function is evaluated eagerly: the values it yields are collected in order (the interpreted code base
+            # consumes its generators completely, and they have no side effects that depend on laziness)
+            env["\0yielded"] = []
         try:
             self._block(self.func.body, env)
         except _Return as r:
-            return r.value
-        return None
+            return env["\0yielded"] if is_gen else r.value
+        return env["\0yielded"] if is_gen else None
 
     def _const_default(self, d):
         if isinstance(d, ast.Constant):
@@ -146,6 +163,10 @@ class Evaluator:
                     continue
             if not broke:
                 self._block(st.orelse, env)
+        elif isinstance(st, ast.Expr) and isinstance(st.value, ast.Yield):
+            env["\0yielded"].append(self._expr(st.value.value, env) if st.value.value is not None else None)
+        elif isinstance(st, ast.Expr) and isinstance(st.value, ast.YieldFrom):
+            env["\0yielded"].extend(list(self._expr(st.value.value, env)))
         elif isinstance(st, ast.Expr):
             if isinstance(st.value, ast.Constant):
                 return
